@@ -268,8 +268,10 @@ class Interp(OpsMixin, BuiltinsMixin):
     def exec_stmt(self, s, frame):
         m = getattr(self, "st_" + type(s).__name__, None)
         if m is None:
-            self.notes.append(("unsupported-stmt", type(s).__name__, frame.where(s)))
-            return
+            if type(s).__name__ in ("TypeAlias",):
+                return
+            # a statement the interpreter has no semantics for: skipping it would be guessing
+            raise AnalysisError("unsupported-syntax", "%s statement at %s" % (type(s).__name__, frame.where(s)))
         return m(s, frame)
 
     def st_Expr(self, s, frame):
@@ -386,12 +388,10 @@ class Interp(OpsMixin, BuiltinsMixin):
                 if dname == "cached_property":
                     prop = "get"
             else:
-                other_decorators.append(ast.unparse(d))
+                other_decorators.append(d)
         f = FuncVal(s.name, s, frame.module, kind=kind, closure=frame if frame.func else None)
         f.memo = memo
-        f.other_decorators = other_decorators
-        if other_decorators:
-            self.unknown_decorators.append((frame.module.name, s.name, other_decorators, s.lineno))
+        f.other_decorators = [ast.unparse(d) for d in other_decorators]
         f.defaults = [self.eval(d, frame) for d in s.args.defaults]
         f.kw_defaults = [self.eval(d, frame) if d is not None else None for d in s.args.kw_defaults]
         for d in f.defaults:
@@ -410,9 +410,32 @@ class Interp(OpsMixin, BuiltinsMixin):
             else:
                 self.bind_name(s.name, PropertyVal(fset=f), frame)
         else:
-            self.bind_name(s.name, f, frame)
+            # any other decorator is an ordinary call: the name is bound to what it returns (innermost first)
+            bound = f
+            for d in reversed(other_decorators):
+                bound = self.apply_decorator(self.eval(d, frame), bound, d, frame)
+            self.bind_name(s.name, bound, frame)
 
     st_AsyncFunctionDef = st_FunctionDef
+
+    def apply_decorator(self, dec, f, node, frame):
+        if isinstance(dec, External):
+            origin = getattr(dec, "origin_call", None)
+            name = origin[0] if origin else dec.name
+            if name == "functools.wraps":
+                return f                                   # copies names and the docstring: the function itself is unchanged
+            if name in ("contextlib.contextmanager",):
+                if isinstance(f, FuncVal):
+                    f.context_manager = True
+                return f
+            if name.split(".")[0] == "typing" or name in ("abc.abstractmethod",):
+                return f
+            raise AnalysisError("unmodelled-decorator", "@%s at %s" % (ast.unparse(node), frame.where(node)))
+        if isinstance(dec, (FuncVal, BoundMethod, Builtin, ClassVal)):
+            return self.call(dec, [f], {}, node, frame)
+        if isinstance(dec, Unknown):
+            raise AnalysisError("unmodelled-decorator", "@%s at %s (%s)" % (ast.unparse(node), frame.where(node), dec.reason))
+        raise PyRaise(Instance(self.bclasses["TypeError"], ("%r object is not callable" % self.kind_of(dec),)), node, frame.where(node))
 
     def st_ClassDef(self, s, frame):
         bases = [self.eval(b, frame) for b in s.bases]
@@ -444,8 +467,37 @@ class Interp(OpsMixin, BuiltinsMixin):
                 self.origin_of[id(v)] = "%s.%s" % (cls.qualname, k)
                 self.mark_static(v, "%s.%s" % (cls.qualname, k))
         if cls.metaclass is not None and isinstance(cls.metaclass, ClassVal):
-            cls.injected = self.metaclass_injections(cls.metaclass, owner=cls)
+            cls.injected = self.run_metaclass(cls.metaclass, cls, s, bases, ns, frame)
         self.bind_name(s.name, cls, frame)
+
+    def run_metaclass(self, meta, cls, s, bases, ns, frame):
+        """what the metaclass adds to a class it creates: its own __new__ (and __init__) are interpreted with the class
+        body's namespace, `type.__new__` building the class object; every name the resulting class has that the body did
+        not define was put there by the metaclass.  (Python runs this once per class: each class gets its *own* objects.)"""
+        new, nowner = meta.lookup("__new__")
+        if not isinstance(new, FuncVal):
+            return {}
+        result = self.call_function(new, [meta, s.name, tuple(bases), dict(ns)], {}, s, frame)
+        if not isinstance(result, ClassVal):
+            raise AnalysisError("unmodelled-metaclass", "%s.__new__ returns %r for class %s" % (meta.name, result, s.name))
+        init, iowner = meta.lookup("__init__")
+        if isinstance(init, FuncVal):
+            self.call_function(init, [cls, s.name, tuple(bases), dict(ns)], {}, s, frame)
+        out = {}
+        spaces = [c.attrs for c in result.mro() if isinstance(c, ClassVal) and getattr(c, "made_by_type_new", False)]
+        for space in reversed(spaces):
+            for k, v in space.items():
+                if k in ns or k in ("__module__", "__qualname__", "__doc__", "__dict__", "__weakref__"):
+                    continue
+                out[k] = v
+        for k, v in out.items():
+            if isinstance(v, ClassVal):
+                v.injected_into = cls
+                for c in meta.mro():
+                    f = c.attrs.get("__new__") if isinstance(c, ClassVal) else None
+                    if isinstance(f, FuncVal) and v.node is not None and any(n is v.node for n in ast.walk(f.node)):
+                        v.qualname = "%s:%s.%s" % (c.module.name, c.name, v.name)
+        return out
 
     def metaclass_injections(self, meta, seen=None, owner=None):
         """names the metaclass' __new__ adds through attributes.update({...}) --
@@ -554,8 +606,18 @@ class Interp(OpsMixin, BuiltinsMixin):
             self.bind_name(t.id, v, frame)
         elif isinstance(t, (ast.Tuple, ast.List)):
             items = self.iterate(v, t, frame)
+            star = [i for i, te in enumerate(t.elts) if isinstance(te, ast.Starred)]
             if items is None:
                 items = [Unknown("unpack of dynamic")] * len(t.elts)
+                if star:
+                    items[star[0]] = [Unknown("unpack of dynamic")]
+            elif star:
+                # a, b, *rest = items: the starred name takes what the others leave, as a list
+                i = star[0]
+                after = len(t.elts) - i - 1
+                if len(items) < len(t.elts) - 1:
+                    raise PyRaise(Instance(self.bclasses["ValueError"], ("not enough values to unpack",)), t, frame.where(t))
+                items = list(items[:i]) + [list(items[i:len(items) - after])] + list(items[len(items) - after:] if after else [])
             if len(items) != len(t.elts):
                 raise PyRaise(Instance(self.bclasses["ValueError"], ("unpack",)), t, frame.where(t))
             for te, ve in zip(t.elts, items):
@@ -609,11 +671,88 @@ class Interp(OpsMixin, BuiltinsMixin):
             self.exec_block(s.orelse, frame)
 
     def st_With(self, s, frame):
-        for item in s.items:
-            v = self.eval(item.context_expr, frame)
+        self.with_items(s.items, 0, s, frame)
+
+    def with_items(self, items, i, s, frame):
+        """the context-manager protocol: __enter__, the block, __exit__ on every way out (an exception it answers
+        with a true value is swallowed)"""
+        if i == len(items):
+            self.exec_block(s.body, frame)
+            return
+        item = items[i]
+        ctx = self.eval(item.context_expr, frame)
+
+        def rest(entered):
             if item.optional_vars is not None:
-                self.assign(item.optional_vars, v, frame)
-        self.exec_block(s.body, frame)
+                self.assign(item.optional_vars, entered, frame)
+            self.with_items(items, i + 1, s, frame)
+        if isinstance(ctx, CtxGen):
+            return self.with_generator(ctx, rest, item.context_expr, frame)
+        if isinstance(ctx, ExitStackVal):
+            try:
+                rest(ctx)
+            finally:
+                self.run_exit_stack(ctx, item.context_expr, frame)
+            return
+        if isinstance(ctx, Instance) and isinstance(ctx.cls.lookup("__exit__")[0], FuncVal):
+            enter = ctx.cls.lookup("__enter__")[0]
+            exit_ = ctx.cls.lookup("__exit__")[0]
+            entered = self.call_function(enter, [ctx], {}, item.context_expr, frame) if isinstance(enter, FuncVal) else ctx
+            try:
+                rest(entered)
+            except PyRaise as e:
+                ec = e.exc_class()
+                r = self.call_function(exit_, [ctx, ec if ec is not None else e.exc, e.exc, None], {}, item.context_expr, frame)
+                if self.truth(r, item.context_expr, frame):
+                    return
+                raise
+            except (_Return, _Break, _Continue):
+                self.call_function(exit_, [ctx, None, None, None], {}, item.context_expr, frame)
+                raise
+            self.call_function(exit_, [ctx, None, None, None], {}, item.context_expr, frame)
+            return
+        # an object from outside (a file, a lock ...): it is what `as` names; leaving the block is its own business
+        rest(ctx)
+
+    def with_generator(self, ctx, rest, node, frame):
+        """`with cm(...)` for a @contextmanager function: the block runs where the generator yields (an exception from the
+        block is raised there, inside whatever try the generator has around its yield)"""
+        f = ctx.func
+        nf = Frame(self, f.module, func=f, locals_=dict(ctx.locs), parent=f.closure)
+        state = {"yielded": 0, "flow": None}
+
+        def at_yield(value):
+            state["yielded"] += 1
+            if state["yielded"] > 1:
+                raise PyRaise(Instance(self.bclasses["RuntimeError"], ("generator didn't stop",)), node, frame.where(node))
+            try:
+                rest(value)
+            except (_Return, _Break, _Continue) as flow:
+                state["flow"] = flow         # leaving the block by return / break / continue resumes the generator normally
+        nf.yield_inline = at_yield
+        self.callstack.append((f.qualname, getattr(node, "lineno", None)))
+        try:
+            try:
+                self.exec_block(f.node.body, nf)
+            except _Return:
+                pass
+        finally:
+            self.callstack.pop()
+        if not state["yielded"]:
+            raise PyRaise(Instance(self.bclasses["RuntimeError"], ("generator didn't yield",)), node, frame.where(node))
+        if state["flow"] is not None:
+            raise state["flow"]
+
+    def run_exit_stack(self, st, node, frame):
+        pending = None
+        while st.callbacks:
+            fn, a, k = st.callbacks.pop()
+            try:
+                self.call(fn, list(a), dict(k), node, frame)
+            except PyRaise as e:
+                pending = e                  # a failing callback does not stop the earlier ones; the last error wins
+        if pending is not None:
+            raise pending
 
     def st_Try(self, s, frame):
         names = set()
@@ -706,7 +845,9 @@ class Interp(OpsMixin, BuiltinsMixin):
             loop_id = "%s:L%d" % (frame.func.qualname if frame.func else frame.module.name, s.lineno)
             cname = ("loopvar", loop_id, s.target.id)
             elem = Sym.opaque(cname)
-            self.cursors[cname] = {"pre": ra[0], "views": {}, "step": norm_int(ra[2] if len(ra) == 3 else 1)}
+            stop = norm_int(ra[1])
+            self.cursors[cname] = {"pre": ra[0], "views": {}, "step": norm_int(ra[2] if len(ra) == 3 else 1),
+                                   "stop": stop if isinstance(stop, (int, Sym)) and not getattr(stop, "view", None) else None}
         self.summarise_loop(s, frame, elem_target=s.target, elem=elem, iterable=it)
 
     def st_While(self, s, frame):
@@ -753,7 +894,13 @@ class Interp(OpsMixin, BuiltinsMixin):
         variable the body assigns), record the loop facts, havoc again."""
         loop_id = "%s:L%d" % (frame.func.qualname if frame.func else frame.module.name, s.lineno)
         names = self.assigned_names(s.body)
-        if self.body_may_exit(s) and not getattr(iterable, "nonempty", False):
+        if test is not None and isinstance(test, ast.Compare) and self.test_relates_values(test, frame):
+            # `while a < b` over two computed values: whether the loop runs at all is the test on the state before it -- the
+            # same question an earlier guard on this path may have asked already
+            if not self.truth(self.eval(test, frame), test, frame):
+                self.event("loop-skipped", loop=loop_id, node=s, where=frame.where(s))
+                return
+        elif self.body_may_exit(s) and not getattr(iterable, "nonempty", False):
             if not self.decide("loop %s runs at least once" % loop_id, s, frame):
                 for n in sorted(names):
                     if n in frame.locals:
@@ -773,15 +920,19 @@ class Interp(OpsMixin, BuiltinsMixin):
             self.assign(elem_target, elem, frame)
         test_operands = None
         if test is not None:
-            if isinstance(test, ast.Compare) and len(test.ops) == 1:
-                # the two sides of the loop test at the head of an iteration (for the variant: cursor against bound)
-                self.no_decide += 1
-                try:
-                    test_operands = (type(test.ops[0]).__name__, self.eval(test.left, frame), self.eval(test.comparators[0], frame))
-                except (_Undetermined, PyRaise, AnalysisError):
-                    test_operands = None
-                finally:
-                    self.no_decide -= 1
+            conj = test.values if isinstance(test, ast.BoolOp) and isinstance(test.op, ast.And) else [test]
+            test_operands = []
+            for cj in conj:
+                if isinstance(cj, ast.Compare) and len(cj.ops) == 1:
+                    # the two sides of (each conjunct of) the loop test at the head of an iteration: cursor against bound
+                    self.no_decide += 1
+                    try:
+                        test_operands.append((type(cj.ops[0]).__name__, self.eval(cj.left, frame), self.eval(cj.comparators[0], frame)))
+                    except (_Undetermined, PyRaise, AnalysisError):
+                        pass
+                    finally:
+                        self.no_decide -= 1
+            test_operands = test_operands or None
             tv = self.eval(test, frame)
             self.assume_true(tv, test, frame)
         exit_kind = "fallthrough"
@@ -803,7 +954,7 @@ class Interp(OpsMixin, BuiltinsMixin):
             frame.loop_depth = depth
             raise
         end = dict((n, frame.locals.get(n)) for n in names if n in frame.locals)
-        self.cursor_views_of_loop(s, frame, loop_id, head, end, pre)
+        self.cursor_views_of_loop(s, frame, loop_id, head, end, pre, test_operands)
         self.loop_stack.pop()
         frame.loop_depth = depth
         self.event("loop-body", loop=loop_id, node=s, head=head, pre=pre, end=end,
@@ -813,7 +964,20 @@ class Interp(OpsMixin, BuiltinsMixin):
             if n in frame.locals:
                 frame.locals[n] = self.havoc_after(pre.get(n, _ABSENT), frame.locals[n], loop_id, n)
 
-    def cursor_views_of_loop(self, s, frame, loop_id, head, end, pre):
+    def test_relates_values(self, test, frame):
+        """is the loop test a comparison of two symbolic integers (neither a buffer length)?"""
+        if len(test.ops) != 1:
+            return False
+        self.no_decide += 1
+        try:
+            a, b = norm_int(self.eval(test.left, frame)), norm_int(self.eval(test.comparators[0], frame))
+        except (_Undetermined, PyRaise, AnalysisError):
+            return False
+        finally:
+            self.no_decide -= 1
+        return isinstance(a, Sym) and isinstance(b, Sym) and getattr(a, "view", None) is None and getattr(b, "view", None) is None
+
+    def cursor_views_of_loop(self, s, frame, loop_id, head, end, pre, test_operands=None):
         """an integer the loop advances and uses to slice a device view is a cursor: V[pos + a : pos + b] was evaluated as
         W[a:b] with W the view that starts at the cursor (exactly what `V = V[stride:]` walks); here, at the end of the
         body, W and W advanced by this iteration's stride are added to the loop's head / end state under the name of the
@@ -841,9 +1005,23 @@ class Interp(OpsMixin, BuiltinsMixin):
                         if isinstance(val, Sym) and val.poly is not None and val.poly == d.poly:
                             d = val
                             break
+            bound = None
+            for op, a, b in (test_operands or ()):
+                if op in ("Gt", "GtE"):
+                    a, b = b, a
+                elif op not in ("Lt", "LtE"):
+                    continue
+                ca = self.cursor_split(a)
+                if ca is not None and ca[0] == cname and ca[1] == 0 and self.cursor_split(b) is None \
+                        and isinstance(norm_int(b), (int, Sym)) and not getattr(norm_int(b), "view", None):
+                    bound = norm_int(b)       # `while cursor < E`: the walk ends at position E of the view
+            if bound is None and "step" in rec and rec.get("stop") is not None:
+                bound = rec["stop"]
             for vid, (v, W, P) in rec["views"].items():
                 if isinstance(d, int) and d < 0:
                     continue
+                if bound is not None and getattr(P, "end", None) is None:
+                    P.end = (v.lo, bound)
                 Wend = W if (isinstance(d, int) and d == 0) else self.view_get(W, slice(d, None), s, frame)
                 vname = None
                 for n, val in frame.locals.items():
@@ -986,7 +1164,9 @@ class Interp(OpsMixin, BuiltinsMixin):
             f2.other_decorators = []
             r = self.call_function(f2, args_orig, kwargs_orig, node, frame)
             self.memo_store[mk] = r
-            self.event("memo-store", func=f.qualname, where=frame.where(node) if frame else None, node=f.node)
+            # a cached value every caller shares is state only if it can change: numbers, strings and tuples of them cannot
+            self.event("memo-store" if not self.is_immutable_value(r) else "memo-store-immutable", func=f.qualname,
+                       where=frame.where(node) if frame else None, node=f.node)
             return r
         w = self.watch.get(f.qualname)
         if w is not None:
@@ -998,6 +1178,8 @@ class Interp(OpsMixin, BuiltinsMixin):
         self.visited.add(f.qualname)
         self.callstack.append((f.qualname, getattr(node, "lineno", None)))
         try:
+            if getattr(f, "context_manager", False):
+                return CtxGen(f, locs)
             if any(isinstance(n, (ast.Yield, ast.YieldFrom)) for n in self.own_nodes(f.node)):
                 return self.run_generator(f, nf)
             try:
@@ -1007,6 +1189,14 @@ class Interp(OpsMixin, BuiltinsMixin):
             return None
         finally:
             self.callstack.pop()
+
+    def is_immutable_value(self, v):
+        v = norm_int(v)
+        if v is None or isinstance(v, (bool, int, float, str, bytes, Sym, SymStr, frozenset, range, slice)):
+            return True
+        if isinstance(v, tuple):
+            return all(self.is_immutable_value(x) for x in v)
+        return False
 
     def memo_key(self, v):
         v = norm_int(v)
@@ -1026,6 +1216,8 @@ class Interp(OpsMixin, BuiltinsMixin):
             while stack:
                 n = stack.pop()
                 cached.append(n)
+                if isinstance(n, (ast.FunctionDef, ast.AsyncFunctionDef, ast.ClassDef, ast.Lambda)):
+                    continue               # a nested definition: what is inside belongs to it, not to this function
                 for c in ast.iter_child_nodes(n):
                     if not isinstance(c, (ast.FunctionDef, ast.ClassDef, ast.Lambda)):
                         stack.append(c)
